@@ -679,6 +679,27 @@ example : ∃ r r', (STab.ofTab bellMinusTab).Good ∧ (STab.ofTab bellMinusYYTa
   exact ⟨_, _, g1, g2, s, h1, h2,
     fidelity_presentation_independent _ _ _ _ _ _ g1 g3 g2 g3 s (SpanEq.refl _) h1 h2⟩
 
+/-- **The fidelity is invariant under applying the same Clifford circuit to both states** (every n, every well-formed gate
+    list `c` of `run_circuit`): `fidelity(c·a, c·b) = fidelity(a, b)`. -/
+theorem fidelity_circuit_invariant (a b : Tab) (c : List Gate) (hc : ∀ g, g ∈ c → g.WF a.n) (hn : b.n = a.n)
+    (ga : (STab.ofTab a).Good) (gb : (STab.ofTab b).Good) (r r' : Option Nat)
+    (h : STab.innerProduct a b = .ok r) (h' : STab.innerProduct (a.runCircuit c) (b.runCircuit c) = .ok r') : r = r' :=
+  innerProduct_circuit_invariant a b c hc hn ga gb r r' h h'
+
+/-- the hypotheses of `fidelity_circuit_invariant` are met by Φ⁺, |00⟩ and the list `H₀, CNOT₀₁, P₁`; both calls return
+    the same value, as the theorem says -/
+example : (∀ g, g ∈ [Gate.H 0, Gate.CNOT 0 1, Gate.P 1] → g.WF bellPlusTab.n) ∧
+    STab.innerProduct bellPlusTab ket00Tab = .ok (some 1) ∧
+    STab.innerProduct (bellPlusTab.runCircuit [Gate.H 0, Gate.CNOT 0 1, Gate.P 1])
+      (ket00Tab.runCircuit [Gate.H 0, Gate.CNOT 0 1, Gate.P 1]) = .ok (some 1) := by
+  refine ⟨?_, ok_of_check _ _ (by decide +kernel), ok_of_check _ _ (by decide +kernel)⟩
+  intro g hg
+  simp only [List.mem_cons, List.mem_nil_iff, or_false] at hg
+  rcases hg with rfl | rfl | rfl
+  · show 0 < 2; decide
+  · show 0 < 2 ∧ 1 < 2 ∧ 0 ≠ 1; decide
+  · show 1 < 2; decide
+
 /-- the witness of the repaired defect D42 (`C11.d42`: −XIYXI, −IXXZZ, IIZZX, −ZIIZI, IZZZI) as a Clifford tableau
     (the destabilizer half is not read by `inner_product` on its first argument) -/
 def d42Tab : Tab := Tab.ofRows 5 #[PRow.one, PRow.one, PRow.one, PRow.one, PRow.one,
